@@ -136,14 +136,25 @@ pub fn run_jrnl(case: &Case) -> RunOutput {
                 let mut mine: Vec<String> = Vec::new();
                 for i in 0..per_client {
                     let invoke = w2.sim.steps();
-                    let (what, creates, deletes, ok): (String, Option<String>, Option<String>, bool) = match crng.below(10) {
+                    let (what, creates, deletes, ok): (String, Option<String>, Option<String>, bool) = match crng.below(11) {
+                        // an update that keeps the name (the usual way to change an expiry), addressed by id or
+                        // by name: later entries address the same topic by name, and replay must follow
+                        10 => {
+                            let t = 1 + crng.below(2) as u32;
+                            let name = format!("base-{t}");
+                            let target = if crng.chance(0.5) { IdRef::Num(t) } else { IdRef::Name(name.clone()) };
+                            let expiry = if crng.chance(0.5) { IggyExpiry::NeverExpire } else { IggyExpiry::ExpireDuration(iggy::utils::duration::IggyDuration::from(3_600_000_000u64)) };
+                            let ok = client.update_topic(&s1, &target.to_identifier(), &name, CompressionAlgorithm::None, None, expiry, MaxTopicSize::Unlimited).await.is_ok();
+                            (format!("update_topic {name}"), None, None, ok)
+                        }
                         // purge commands journal while holding only the shared system lock
                         0..=3 => {
                             if crng.chance(0.5) {
                                 ("purge_stream".into(), None, None, client.purge_stream(&s1).await.is_ok())
                             } else {
                                 let t = 1 + crng.below(2) as u32;
-                                (format!("purge_topic {t}"), None, None, client.purge_topic(&s1, &IdRef::Num(t).to_identifier()).await.is_ok())
+                                let target = if crng.chance(0.5) { IdRef::Num(t) } else { IdRef::Name(format!("base-{t}")) };
+                                (format!("purge_topic {t}"), None, None, client.purge_topic(&s1, &target.to_identifier()).await.is_ok())
                             }
                         }
                         4 | 5 => {
